@@ -151,6 +151,7 @@ class Prov:
         self.defs = {}      # local -> list of (block, idx, kind) ; kind in full/partial/call/mutborrow
         self._index()
         self._cache = {}
+        self._stack = set()
 
     def _index(self):
         fn = self.fn
@@ -270,6 +271,20 @@ class Prov:
                     alts.append(E('local', fn.local_name(l)))
                 continue
             b, i = r
+            if (l, b, i) in self._stack:
+                # loop-carried value: do not unroll
+                alts.append(E('local', fn.local_name(l) + '@loop'))
+                continue
+            self._stack.add((l, b, i))
+            try:
+                alts.append(self._def_expr(l, b, i, depth))
+            finally:
+                self._stack.discard((l, b, i))
+        return self._merge(l, alts)
+
+    def _def_expr(self, l, b, i, depth):
+        fn = self.fn
+        if True:
             if i == -1:
                 t = fn.blocks[b]['term']
                 c = t['fn']
@@ -278,10 +293,13 @@ class Prov:
                 e = E('call', name, args, site=(b, -1), ty=fn.local_ty(l))
                 if c['k'] == 'def':
                     e.c = c
-                alts.append(e)
+                return e
             else:
                 st = fn.blocks[b]['stmts'][i]
-                alts.append(self.rvalue(st['rv'], b, i, depth + 1, fn.local_ty(l)))
+                return self.rvalue(st['rv'], b, i, depth + 1, fn.local_ty(l))
+
+    def _merge(self, l, alts):
+        fn = self.fn
         if self.has_partial_defs(l) and not (len(alts) == 1 and alts[0].k in ('aggr',) and False):
             # the local is also written field-wise / element-wise: keep the whole-value defs but mark it
             e = alts[0] if len(alts) == 1 else E('phi', None, alts)
@@ -354,7 +372,7 @@ def strip(e):
         if e.k == 'call' and e.args and is_transparent(e.name):
             e = e.args[0]
             continue
-        if e.k == 'call' and e.args and e.name and 'core::slice::index::<impl std::ops::Index<I> for [T]>::index' in e.name:
+        if e.k == 'call' and len(e.args) == 2 and e.name and last(e.name) in ('index', 'index_mut'):
             # x[..] (RangeFull) is the identity
             idx = strip(e.args[1])
             if idx.k == 'aggr' and idx.name == 'RangeFull::RangeFull':
